@@ -22,6 +22,7 @@ type GenConfig struct {
 	CoarseTick bool // coarse capture clock
 	Jumble     bool // capture files that are not sorted by time
 	Chatty     bool // now and then a flow of thousands of tiny alternating messages
+	LateStarts bool // most conversations start late: later capture files hold more streams than earlier ones (merge cascades)
 }
 
 func DefaultGen() GenConfig {
@@ -37,6 +38,11 @@ func Gen(r *rand.Rand, cfg GenConfig) *Spec {
 	usedPorts := map[uint16]bool{}
 	for i := 0; i < n; i++ {
 		c := ConvSpec{Seed: r.Uint64(), StartUS: r.Int64N(horizon), StepUS: int64(20 + r.IntN(400))}
+		if cfg.LateStarts {
+			// density grows towards the end of the capture
+			u := r.Float64()
+			c.StartUS = int64(float64(horizon) * (1 - u*u*u))
+		}
 		v6 := cfg.V6 && r.IntN(4) == 0
 		c.V6 = v6
 		cport := uint16(20000 + r.IntN(20000))
